@@ -25,7 +25,7 @@ const PARAMS: [&str; 3] = ["T", "U", "A_1"];
 const LENS: [usize; 5] = [0, 1, 2, 3, tast::ARRAY_WILDCARD_LEN];
 
 #[derive(Clone)]
-enum Step {
+pub(crate) enum Step {
     Fresh(usize),
     Unify(Ty, Ty),
     Norm(Ty),
@@ -39,7 +39,7 @@ fn step_s(s: &Step) -> S {
     }
 }
 
-fn tv(i: usize) -> Ty {
+pub(crate) fn tv(i: usize) -> Ty {
     Typer::verif_tvar(i as u32)
 }
 
@@ -111,7 +111,7 @@ fn list_len(rng: &mut Rng) -> usize {
 }
 
 /// a random type of depth <= `depth` over the variables 0..nv; `pvar` = percentage of variable leaves
-fn gen_ty(rng: &mut Rng, depth: usize, nv: usize, pvar: u64) -> Ty {
+pub(crate) fn gen_ty(rng: &mut Rng, depth: usize, nv: usize, pvar: u64) -> Ty {
     if depth == 0 || rng.chance(22, 100) {
         return leaf(rng, nv, pvar);
     }
@@ -141,7 +141,7 @@ fn gen_ty(rng: &mut Rng, depth: usize, nv: usize, pvar: u64) -> Ty {
     }
 }
 
-fn children(t: &Ty) -> Vec<&Ty> {
+pub(crate) fn children(t: &Ty) -> Vec<&Ty> {
     match t {
         Ty::TTuple { typs } => typs.iter().collect(),
         Ty::TApp { ty, args } => {
@@ -159,7 +159,7 @@ fn children(t: &Ty) -> Vec<&Ty> {
     }
 }
 
-fn rebuild(t: &Ty, mut ch: Vec<Ty>) -> Ty {
+pub(crate) fn rebuild(t: &Ty, mut ch: Vec<Ty>) -> Ty {
     match t {
         Ty::TTuple { .. } => Ty::TTuple { typs: ch },
         Ty::TApp { .. } => {
@@ -177,11 +177,11 @@ fn rebuild(t: &Ty, mut ch: Vec<Ty>) -> Ty {
     }
 }
 
-fn node_count(t: &Ty) -> usize {
+pub(crate) fn node_count(t: &Ty) -> usize {
     1 + children(t).iter().map(|c| node_count(c)).sum::<usize>()
 }
 
-fn depth_of(t: &Ty) -> usize {
+pub(crate) fn depth_of(t: &Ty) -> usize {
     let ch = children(t);
     match t {
         Ty::TTuple { .. } | Ty::TApp { .. } | Ty::TArray { .. } | Ty::TVec { .. } | Ty::TRef { .. } | Ty::TFunc { .. } => {
@@ -191,7 +191,7 @@ fn depth_of(t: &Ty) -> usize {
     }
 }
 
-fn vars_of(t: &Ty, out: &mut Vec<u32>) {
+pub(crate) fn vars_of(t: &Ty, out: &mut Vec<u32>) {
     if let Ty::TVar(v) = t {
         let i = Typer::verif_tvar_index(*v);
         if !out.contains(&i) {
@@ -277,14 +277,14 @@ fn tweak(rng: &mut Rng, t: &Ty, budget: usize, nv: usize) -> Ty {
 
 /// a mutated copy: 1..=3 subtrees replaced by a variable (any of 0..nv, `fresh` preferred when given),
 /// or by a different type, or tweaked
-fn mutate(rng: &mut Rng, t: &Ty, nv: usize, fresh: Option<usize>) -> Ty {
+pub(crate) fn mutate(rng: &mut Rng, t: &Ty, nv: usize, fresh: Option<usize>) -> Ty {
     let rounds = 1 + rng.below(3);
     mutate_n(rng, t, nv, fresh, rounds)
 }
 
 /// replace 1..=3 random subtrees by variables (never the root): the copy still unifies with the original
 /// unless a variable is used twice for different subtrees
-fn abstract_vars(rng: &mut Rng, t: &Ty, nv: usize, fresh: Option<usize>) -> Ty {
+pub(crate) fn abstract_vars(rng: &mut Rng, t: &Ty, nv: usize, fresh: Option<usize>) -> Ty {
     let mut cur = t.clone();
     if nv == 0 {
         return cur;
@@ -308,7 +308,7 @@ fn abstract_vars(rng: &mut Rng, t: &Ty, nv: usize, fresh: Option<usize>) -> Ty {
     cur
 }
 
-fn mutate_n(rng: &mut Rng, t: &Ty, nv: usize, fresh: Option<usize>, rounds: usize) -> Ty {
+pub(crate) fn mutate_n(rng: &mut Rng, t: &Ty, nv: usize, fresh: Option<usize>, rounds: usize) -> Ty {
     let mut cur = t.clone();
     let mut fresh_left = fresh;
     for _ in 0..rounds {
@@ -468,13 +468,13 @@ fn wrap_one(rng: &mut Rng, ctx: Ctx, inner: Ty, nv: usize, sib_depth: usize) -> 
 // ------------------------------------------------------------------------------------------------
 // script generation
 
-struct Gen {
-    steps: Vec<Step>,
-    nv: usize,
+pub(crate) struct Gen {
+    pub(crate) steps: Vec<Step>,
+    pub(crate) nv: usize,
     swapped: usize,
     unswapped: usize,
     /// family-specific annotations for the coverage row
-    notes: Vec<String>,
+    pub(crate) notes: Vec<String>,
     /// index of the step that is the knot / the targeted mismatch (if any) and what is aimed at
     aim: Option<(usize, &'static str)>,
 }
@@ -536,7 +536,7 @@ impl Gen {
     }
 }
 
-fn shuffle<T>(rng: &mut Rng, v: &mut Vec<T>) {
+pub(crate) fn shuffle<T>(rng: &mut Rng, v: &mut Vec<T>) {
     for i in (1..v.len()).rev() {
         let j = rng.below(i + 1);
         v.swap(i, j);
@@ -544,7 +544,7 @@ fn shuffle<T>(rng: &mut Rng, v: &mut Vec<T>) {
 }
 
 /// family 1: alias class, then tie the knot through (another member of) the class
-fn gen_alias_knot(rng: &mut Rng) -> Gen {
+pub(crate) fn gen_alias_knot(rng: &mut Rng) -> Gen {
     let mut g = Gen::new();
     let k = 2 + rng.below(MAX_VARS - 1); // 2..=8
     g.fresh(k);
@@ -655,7 +655,7 @@ fn gen_alias_knot(rng: &mut Rng) -> Gen {
 }
 
 /// family 2: nested constructors, right side = mutated copy of the left; follow-up steps on the same store
-fn gen_nested(rng: &mut Rng) -> Gen {
+pub(crate) fn gen_nested(rng: &mut Rng) -> Gen {
     let mut g = Gen::new();
     let k = 1 + rng.below(6); // 1..=6
     g.fresh(k);
@@ -854,10 +854,10 @@ fn mismatch_pair(rng: &mut Rng, which: usize, nv: usize) -> (&'static str, &'sta
         }
     }
 }
-const N_MISMATCH: usize = 15;
+pub(crate) const N_MISMATCH: usize = 15;
 
 /// family 3: one targeted mismatch at a random depth, after a random number of successfully unified siblings
-fn gen_mismatch(rng: &mut Rng, which: usize) -> Gen {
+pub(crate) fn gen_mismatch(rng: &mut Rng, which: usize) -> Gen {
     let mut g = Gen::new();
     let k = 1 + rng.below(5);
     g.fresh(k);
@@ -906,7 +906,7 @@ fn gen_mismatch(rng: &mut Rng, which: usize) -> Gen {
 }
 
 /// family 4: purely random scripts mixing everything
-fn gen_random(rng: &mut Rng) -> Gen {
+pub(crate) fn gen_random(rng: &mut Rng) -> Gen {
     let mut g = Gen::new();
     g.fresh(1 + rng.below(4));
     let len = 4 + rng.below(7);
@@ -959,7 +959,7 @@ fn gen_random(rng: &mut Rng) -> Gen {
 // ------------------------------------------------------------------------------------------------
 // execution on the real typer
 
-fn classify(msg: &str) -> &'static str {
+pub(crate) fn classify(msg: &str) -> &'static str {
     const TABLE: [(&str, &str); 12] = [
         ("occurs check failed", "occurs"),
         ("Failed to unify type variables", "var-var"),
@@ -983,7 +983,7 @@ fn classify(msg: &str) -> &'static str {
 }
 
 /// own cycle detection on the real store, using only `verif_probe`
-fn find_cycle(typer: &mut Typer, nv: usize) -> Option<u32> {
+pub(crate) fn find_cycle(typer: &mut Typer, nv: usize) -> Option<u32> {
     // 0 = unvisited, 1 = on the DFS stack, 2 = done; indexed by ROOT
     let mut state = vec![0u8; nv];
     fn dfs(typer: &mut Typer, state: &mut Vec<u8>, v: u32) -> Option<u32> {
@@ -1020,7 +1020,7 @@ fn find_cycle(typer: &mut Typer, nv: usize) -> Option<u32> {
 }
 
 /// predicted node count of `norm t` on an ACYCLIC store (saturating), using only `verif_probe`
-fn norm_size(typer: &mut Typer, t: &Ty, memo: &mut BTreeMap<u32, u64>) -> u64 {
+pub(crate) fn norm_size(typer: &mut Typer, t: &Ty, memo: &mut BTreeMap<u32, u64>) -> u64 {
     if let Ty::TVar(v) = t {
         let i = Typer::verif_tvar_index(*v);
         let (root, val) = typer.verif_probe(i);
@@ -1045,17 +1045,17 @@ fn norm_size(typer: &mut Typer, t: &Ty, memo: &mut BTreeMap<u32, u64>) -> u64 {
 }
 
 #[derive(Default)]
-struct Cov {
-    m: BTreeMap<String, u64>,
+pub(crate) struct Cov {
+    pub(crate) m: BTreeMap<String, u64>,
 }
 impl Cov {
-    fn add(&mut self, k: &str, v: u64) {
+    pub(crate) fn add(&mut self, k: &str, v: u64) {
         *self.m.entry(k.to_string()).or_insert(0) += v;
     }
-    fn inc(&mut self, k: &str) {
+    pub(crate) fn inc(&mut self, k: &str) {
         self.add(k, 1);
     }
-    fn max(&mut self, k: &str, v: u64) {
+    pub(crate) fn max(&mut self, k: &str, v: u64) {
         let e = self.m.entry(k.to_string()).or_insert(0);
         if v > *e {
             *e = v;
@@ -1063,7 +1063,7 @@ impl Cov {
     }
 }
 
-fn kind_name(t: &Ty) -> &'static str {
+pub(crate) fn kind_name(t: &Ty) -> &'static str {
     match t {
         Ty::TVar(_) => "tvar",
         Ty::TTuple { .. } => "tuple",
@@ -1080,7 +1080,7 @@ fn kind_name(t: &Ty) -> &'static str {
     }
 }
 
-fn count_kinds(t: &Ty, cov: &mut Cov) {
+pub(crate) fn count_kinds(t: &Ty, cov: &mut Cov) {
     cov.inc(&format!("k_{}", kind_name(t)));
     if let Ty::TArray { len, .. } = t {
         if *len == tast::ARRAY_WILDCARD_LEN {
